@@ -10,6 +10,17 @@ CHECKS = {
                   'right dtype, and no exception escapes; for all four input types and both accumulators.  Counterexamples are replayed on the real code.',
              note='Trusted: z3/cvc5, kbmc translator + library models (bytes.find/upper/slicing, numpy set-as-array abstraction), specs/kmers_spec.py; kernel for every k<=32 is C07.',
              ref='3/C01'),
+ 'C03': dict(engine='X', technique='symbolic execution (CrossHair/z3) of the real classify/matching_taxon/next_taxon/reportable_taxon/get_result_item on real model objects; one condition per forest shape; numpy.argmin as contract stub',
+             text='For every taxonomy forest within the bound (shapes enumerated up to isomorphism), every presence/absence and order type of thresholds, every '
+                  'report-flag pattern, every distance order type (ties with thresholds included) and every placement of genomes, CrossHair confirms over all paths '
+                  'that the real result equals a transcription of the property text; counterexamples are replayed in a plain interpreter.',
+             note='Trusted: CrossHair path exhaustion, the order-type abstraction of float values (code only compares them), the argmin contract stub, the oracle in xh/t_c03.py.tmpl.',
+             ref='3/C03'),
+ 'C13': dict(engine='X', technique='symbolic execution (CrossHair/z3) of the real calc_file_signatures with as_completed modelled as an arbitrary (symbolic) permutation and stub executors',
+             text='For 1..4 (quick) / 5 (thorough) files, every completion permutation, every position of a failing file, every concurrency mode and executor ownership, '
+                  'CrossHair confirms over all paths that entry i is the signature of file i, that failures propagate, and that executor lifetimes are respected.',
+             note='Trusted: CrossHair path exhaustion; the executor/as_completed contract stubs.  Real pools and pickling are outside.',
+             ref='3/C13'),
  'C06': dict(engine='K', technique='bounded model checking: two symbolic executions of calc_signature per obligation (original vs reverse-complemented / reordered / case-flipped input), equality of the accumulated sets decided by SMT; compression choice over a symbolic file header',
              text='Strand symmetry per contig, contig-order independence, signature = union of per-contig signatures (no k-mer across a boundary) and case '
                   'invariance hold for every byte string within the bound; gzip is chosen iff the header is 1f 8b regardless of the name.',
